@@ -154,7 +154,11 @@ func baseNextToken(l *Lexer) token.Token {
 			tok.Type = token.ILLEGAL // unterminated raw string
 		}
 	case 0:
-		tok = l.NewToken(token.EOF, "")
+		if l.atEnd() {
+			tok = l.NewToken(token.EOF, "")
+		} else {
+			tok = l.NewToken(token.ILLEGAL, string(l.CurrentChar)) // a NUL byte inside the input
+		}
 	default:
 		if isLetter(l.CurrentChar) {
 			// Capture position BEFORE reading the identifier
